@@ -624,11 +624,16 @@ pub fn run(ctx: &Ctx) -> ! {
     }
     st.add("record-batch", rb_evals, rb_evals);
 
+    // ---- buffer-level constructors and slicing
+    if ctx.replay.is_none() {
+        crate::c09_prims::run(ctx, &mut st);
+    }
+
     vcore::finish(
         ctx,
         Level {
             category: "exploration",
-            rule: "for every grid type x column (len <= N) x layout (<=1 deviation): every single mutilation of the operator menu (len/offset +-1 and overflow, buffer dropped/added/truncated/misaligned, validity short / forbidden / wrong null_count, child dropped/added/retyped/shortened/lengthened, every cell of every offsets/sizes/keys/type-id/view/value buffer of the array and of its children overwritten by each of 8 replacement values) x 4 validating entry points; a case is non-trivial when the constructor rejected it (the mutilation broke validity); accepted cases must pass the independent spec validator and the accessor exercise".into(),
+            rule: "for every grid type x column (len <= N) x layout (<=1 deviation): every single mutilation of the operator menu (len/offset +-1 and overflow, buffer dropped/added/truncated/misaligned, validity short / forbidden / wrong null_count, child dropped/added/retyped/shortened/lengthened, every cell of every offsets/sizes/keys/type-id/view/value buffer of the array and of its children overwritten by each of 8 replacement values) x 4 validating entry points; a case is non-trivial when the constructor rejected it (the mutilation broke validity); accepted cases must pass the independent spec validator and the accessor exercise; buffer-level constructors (BooleanBuffer::new, Buffer::slice / slice_with_length / bit_slice, ScalarBuffer<T>::new for 6 widths, OffsetBuffer::new over all sequences of length <= 4 over 5 values, RunEndBuffer::new over all sequences of length <= 3 over 6 values, the slice methods of these and of every array type): complete products of sizes x offsets x lengths incl. the values next to usize::MAX against the containment inequality".into(),
             assumptions: vec![
                 "spec_validate (vmodel) is the reference for well-formedness; it encodes arrow-rs's documented relaxations (arbitrary payload under nulls for dictionary keys, empty offsets buffer for empty arrays)".into(),
                 "only single mutilations (pairs in thorough are not built yet)".into(),
